@@ -48,6 +48,12 @@ ASSUMPTIONS = [
     'selftest/fakezk_test.py); writes are atomic and ordered, one archiver '
     'session (the production archiver runs under a lock); kill = the process '
     'stops before its k-th create/set/delete reaches ZooKeeper',
+    'one case = one archiver process: functools.lru_cache objects found in '
+    'the treadmill.trace modules are cleared at case start only (none exist '
+    'on the unchanged tree); within a case the modules are not reloaded; the '
+    'second-cycle slice of the trace family runs cleanup_trace twice through '
+    'the same client object and schedules an instance with a full batch of '
+    'old events in between',
     'error = exactly one write of the run raises kazoo ConnectionLoss (quick: '
     'request lost, not applied; thorough also: applied but reply lost), all '
     'later requests succeed; a kazoo exception that the code lets propagate '
@@ -179,7 +185,8 @@ def _run(ctx):
             not c.get('cases_with_records_kept_live') or \
             not c.get('prunes_with_excess') or \
             not c.get('error_points') or \
-            not c.get('error_runs_aborted'):
+            not c.get('error_runs_aborted') or \
+            not c.get('second_cycle_checks'):
         raise w.HarnessError('vacuous run: %r' % dict(c))
     violations = []
     w.install_clock()
